@@ -99,6 +99,66 @@ class Gen:
                 return op
         return None
 
+    # unobserved bursts ------------------------------------------------------
+    def blind_burst(self, pool):
+        """
+        [constructor, op on the new object, ...] chosen from names and types only - no accessor of any pool
+        object is read, so nothing lazily initialised gets a chance to initialise before the ops run.
+        """
+        r = self.rng
+        names = list(pool.objs)
+        vs = [n for n in names if isinstance(pool.objs[n], Vertex)]
+        us = [n for n in names if isinstance(pool.objs[n], Universe)]
+        ws = [n for n in names if isinstance(pool.objs[n], UniverseLaws)]
+        es = [n for n in names if isinstance(pool.objs[n], TwoEndedLink)]
+        kinds = [k for k in ("mku", "mkv", "mke", "mkw") if any(k in w for w in self.weights)]
+        if "mku_l" in self.weights or "mku" in self.weights:
+            kinds.append("mku")
+        if not kinds:
+            return None
+        kind = r.choice(kinds)
+        out = []
+        if kind == "mku" and self.count(pool, "U") < LIMITS["U"] + 1:
+            u = self.fresh("U")
+            w = r.choice(ws) if ws and r.random() < 0.4 and ("mkw" in self.weights or "set_laws" in self.weights) else None
+            members = [r.choice(vs) for _ in range(r.randint(0, 2))] if vs and "u_add" in self.weights else []
+            out.append(["mku", u, members, w])
+            follow = []
+            if "set_laws" in self.weights:
+                follow += [["set_laws", u, None], ["set_laws", u, r.choice(ws) if ws else None]]
+                if ws:
+                    follow.append(["set_applies", r.choice(ws), u])
+            if "u_add" in self.weights and vs:
+                v = r.choice(vs)
+                follow += [["u_add", u, v], ["u_rm", u, r.choice(members or vs)], ["v_add_uni", v, u], ["v_rm_uni", r.choice(members or vs), u]]
+            out += r.sample(follow, min(len(follow), r.randint(1, 2))) if follow else []
+        elif kind == "mkv" and self.count(pool, "V") < LIMITS["V"] + 1:
+            v = self.fresh("V")
+            unis = [r.choice(us)] if us and "u_add" in self.weights else []
+            links = [r.choice(es)] if es and "mke" in self.weights and r.random() < 0.4 else []
+            out.append(["mkv", v, r.choice(VCLS), links, unis, self._ckind()])
+            follow = []
+            if unis:
+                follow += [["v_rm_uni", v, unis[0]], ["u_rm", unis[0], v], ["u_add", unis[0], v]]
+            if "mke" in self.weights and vs:
+                follow += [["mke", self.fresh("E"), r.choice(ECLS), v, r.choice(vs + [v])]]
+            if links:
+                follow += [["v_rm_link", v, links[0]], ["l_unlink_from", links[0], v]]
+            out += r.sample(follow, min(len(follow), r.randint(1, 2))) if follow else []
+        elif kind == "mke" and vs and self.count(pool, "E") < LIMITS["E"] + 1:
+            e = self.fresh("E")
+            a, b = r.choice(vs), r.choice(vs)
+            out.append(["mke", e, r.choice(ECLS), a, b])
+            follow = [["setv1", e, r.choice(vs + [None])], ["setv2", e, r.choice(vs + [None])], ["v_rm_link", a, e],
+                      ["l_unlink_from", e, b], ["unlink", a, b, True], ["v_add_link", r.choice(vs), e]]
+            out += r.sample(follow, r.randint(1, 2))
+        elif kind == "mkw":
+            w = self.fresh("W")
+            out.append(["mkw", w, r.randrange(4)])
+            if us:
+                out.append(r.choice([["set_laws", r.choice(us), w], ["set_applies", w, r.choice(us)], ["set_applies", w, None]]))
+        return out if len(out) >= 2 else None
+
     # structure ---------------------------------------------------------------
     def _end(self, pool, allow_none=True):
         vs = self.vertices(pool)
